@@ -1,2 +1,3 @@
 //! Reference models.
 pub mod dates;
+pub mod sheet;
